@@ -79,6 +79,10 @@ def make_cases(seed, tier):
         for e in ("crypt_rn", "crypt_r", "crypt_ra", "crypt"):
             cases.append(("null-phrase", None, s, e, "="))
             cases.append(("null-setting", b"pw", None, e, "="))
+            if e != "crypt":
+                # NULL is passed while the object's own setting / input field holds a perfectly good value
+                cases.append(("null-setting-field", b"pw", s, e, "="))
+                cases.append(("null-phrase-field", b"pw", s, e, "="))
             for L in (512, 513, 600, 4096):
                 cases.append(("long-phrase", b"A" * L, s, e, "="))
         for sz in [-2147483648, -1, 0, 1, 2, 3, 4, 13, 383, 384, 385, CD - 1] + \
@@ -133,7 +137,12 @@ def do_chunk(args):
             lines.append(rt.crypt_line(e, 3, p, s, sz))
         else:
             slot = {"crypt_rn": 0, "crypt_r": 1, "crypt_ra": 2, "crypt": 0}[e]
-            lines.append(rt.crypt_line(e, slot, p, s))
+            mode = "n" if lab == "null-setting-field" else "m" if lab == "null-phrase-field" else "s"
+            if mode != "s" and e == "crypt_ra":
+                slot, e2 = 0, "crypt_rn"
+            else:
+                e2 = e
+            lines.append(rt.crypt_line(e2, slot, p, s, "=", mode))
     rows = rt.run_resilient(w, setup, lines)
     k = 0
     prev_kind = "fresh"
@@ -143,6 +152,10 @@ def do_chunk(args):
         r = rows[k]
         ln = lines[k]
         k += 1
+        if lab == "null-setting-field":
+            s = None            # what the call was given
+        elif lab == "null-phrase-field":
+            p = None
         acc.count("evaluations")
         cls = lab.split("/")[0]
         mname = lab.split("/")[1] if "/" in lab else (gen.classify(s) if s is not None else None) or "none"
